@@ -17,37 +17,41 @@ Definition dopti (s : sx) : option nat := if Z.ltb (dz s) 0 then None else Some 
 Definition estate (n : nat) (s : state) : sx := L (map (fun i => ebnd (s i)) (seq 0 n)).
 
 (* world state of the interpreter: current bounds + the stored data (leaves) for reset_bounds *)
-Record pworld := PW { pw_cur : state; pw_leaves : state; pw_query : option (nat * bool) }.
+(* pw_roots: the objects handed to add_knowledge so far, in call order (later calls append) *)
+Record pworld := PW { pw_cur : state; pw_leaves : state; pw_query : option (nat * bool); pw_roots : list nat }.
 
-Definition run_op (k : kb) (roots : list nat) (w : pworld) (op : sx) : pworld * sx :=
+Definition run_op (k : kb) (w : pworld) (op : sx) : pworld * sx :=
   let n := length k in
+  let roots := pw_roots w in
   let s := pw_cur w in
   match op with
   | L [A 1; i] =>
       let r := run_prims k (s, 0%Q) (node_up k (dnat i)) in
-      (PW (fst r) (pw_leaves w) (pw_query w), L [eq_ (snd r); estate n (fst r)])
+      (PW (fst r) (pw_leaves w) (pw_query w) roots, L [eq_ (snd r); estate n (fst r)])
   | L [A 2; i; idx] =>
       let r := run_prims k (s, 0%Q) (node_down k (dnat i) (dopti idx)) in
-      (PW (fst r) (pw_leaves w) (pw_query w), L [eq_ (snd r); estate n (fst r)])
+      (PW (fst r) (pw_leaves w) (pw_query w) roots, L [eq_ (snd r); estate n (fst r)])
   | L [A 3; src] =>
       let r := infer 1 k roots (Some Up) (dopti src) (pw_query w) 0 s in
-      (PW (ir_state r) (pw_leaves w) (pw_query w), L [enat (ir_steps r); eq_ (ir_amount r); estate n (ir_state r)])
+      (PW (ir_state r) (pw_leaves w) (pw_query w) roots, L [enat (ir_steps r); eq_ (ir_amount r); estate n (ir_state r)])
   | L [A 4; src] =>
       let r := infer 1 k roots (Some Down) (dopti src) (pw_query w) 0 s in
-      (PW (ir_state r) (pw_leaves w) (pw_query w), L [enat (ir_steps r); eq_ (ir_amount r); estate n (ir_state r)])
+      (PW (ir_state r) (pw_leaves w) (pw_query w) roots, L [enat (ir_steps r); eq_ (ir_amount r); estate n (ir_state r)])
   | L [A 5; src; ms] =>
       let r := infer (S (dnat ms)) k roots None (dopti src) (pw_query w) (dnat ms) s in
-      (PW (ir_state r) (pw_leaves w) (pw_query w), L [enat (ir_steps r); eq_ (ir_amount r); estate n (ir_state r)])
+      (PW (ir_state r) (pw_leaves w) (pw_query w) roots, L [enat (ir_steps r); eq_ (ir_amount r); estate n (ir_state r)])
   | L [A 6; q; conv] =>  (* set_query(q, converge): add_knowledge(q, world=OPEN) resets q to the OPEN world *)
       let q := dnat q in
-      (PW (upd s q unknown) (upd (pw_leaves w) q unknown) (Some (q, dbool conv)), L [estate n (upd s q unknown)])
+      (PW (upd s q unknown) (upd (pw_leaves w) q unknown) (Some (q, dbool conv)) roots, L [estate n (upd s q unknown)])
   | L [A 7] =>  (* reset_bounds *)
-      (PW (pw_leaves w) (pw_leaves w) (pw_query w), L [estate n (pw_leaves w)])
+      (PW (pw_leaves w) (pw_leaves w) (pw_query w) roots, L [estate n (pw_leaves w)])
   | L [A 8; i; b] =>  (* add_data on object i: stored as data (leaves) and as current bounds *)
       let s' := upd s (dnat i) (dbnd b) in
-      (PW s' (upd (pw_leaves w) (dnat i) (dbnd b)) (pw_query w), L [estate n s'])
+      (PW s' (upd (pw_leaves w) (dnat i) (dbnd b)) (pw_query w) roots, L [estate n s'])
   | L [A 10] =>  (* flush: every registered object back to UNKNOWN, stored data erased *)
-      (PW (fun _ => unknown) (fun _ => unknown) (pw_query w), L [estate n (fun _ => unknown)])
+      (PW (fun _ => unknown) (fun _ => unknown) (pw_query w) roots, L [estate n (fun _ => unknown)])
+  | L [A 13; r] =>  (* a later add_knowledge(r) call: r joins the registered roots; no bounds change *)
+      (PW s (pw_leaves w) (pw_query w) (roots ++ [dnat r]), L [estate n s])
   | L [A 9] =>  (* has_contradiction over all registered objects (= reachable from the roots) *)
       (w, L [ebool (has_contradiction k (postorder k roots) s)])
   | _ => (w, bad)
@@ -63,8 +67,8 @@ Definition run_k3 (args : list sx) : sx :=
       let s0 := dstate (match data with L l => l | _ => [] end) unknown in
       let ops := match ops with L l => l | _ => [] end in
       L (rev (snd (fold_left (fun (acc : pworld * list sx) op =>
-                                let r := run_op k roots (fst acc) op in (fst r, snd r :: snd acc))
-                             ops (PW s0 s0 None, []))))
+                                let r := run_op k (fst acc) op in (fst r, snd r :: snd acc))
+                             ops (PW s0 s0 None roots, []))))
   | _ => bad
   end.
 
